@@ -429,7 +429,22 @@ def check_object(W, name, kind, obj, l, sig, seed, do_corrupt):
                 key = W._curkey
                 if back.idxs() != key.idxs():
                     msgs.append("secretkey: free-slot indices changed: %s vs %s" % (back.idxs(), key.idxs()))
-        if do_corrupt:
+        if do_corrupt == "mass" and kind in ("wk_params", "wk_secretkey"):
+            # MANY invalid elements at once: the last N slot elements replaced by one invalid encoding, N = 2, 255, 256, 257, all - a
+            # validation that counts failures (in a narrow counter), or gives up after some, accepts at one of these
+            g1pos = [off for (off, gg) in pos if gg == 1]
+            bad, why = bad_encodings(1, comp, seed)[0]
+            for N in (2, 255, 256, 257, 512, len(g1pos) - 3):
+                if N > len(g1pos) - 3 or N <= 0:
+                    continue
+                d2 = bytearray(data)
+                for off in g1pos[-N:]:
+                    d2[off:off + len(bad)] = bad
+                ok, _, _ = O.unmarshal(kind, bytes(d2), comp, True)
+                stats["corruptions"] += 1
+                if ok is not False:
+                    msgs.append("%s comp=%s: checked unmarshal accepts a buffer whose last %d slot elements are all invalid (%s) -> %s" % (name, comp, N, why, ok))
+        if do_corrupt is True:
             # correlated corruption: TWO elements of the same group moved out of the subgroup by opposite torsion components (P + T and
             # Q - T with T of small order): each is invalid on its own, their sum is not - a validation that is applied to an aggregate
             # (a batched subgroup check) accepts the pair
@@ -509,6 +524,8 @@ def shards(ctx):
             if cfg == "asm" or l in (17, 33):
                 out.append({"sub": "params", "cfg": cfg, "l": l, "sig": l % 2 == 1, "corrupt": False})
         out.append({"sub": "lq", "cfg": cfg})
+    for l in (259, 300, 515):
+        out.append({"sub": "params", "cfg": "asm", "l": l, "sig": l % 2 == 1, "corrupt": "mass"})
     # secret keys with MANY free slots (all l slots free after keygen of the empty list; l - 2 after fixing the first and the last): the
     # slot count of a key is an operand of marshal / length accounting / unmarshal just like the parameters' - every l up to 70 in the
     # thorough tier, 20 (the deployed configuration) with and without signatures, and keys whose slot area crosses 64 KiB (a 16-bit
